@@ -180,7 +180,7 @@ def _witness_scale(ctx, out_vals, x_vals, px, target, kind):
                 _free_consts(v.e, inner)
         cands = [n for n in names if n in defs and n not in inner]  # the input item may itself be the output of an earlier scaling
         if len(cands) != 1:
-            return None, None
+            return None, None  # caller falls back to the specified scale sqrt(target / (power + 1e-8)) and asks the solver directly
         s, r = defs[cands[0]]
         return S.Sym(s), S.Sym(r)
     r = S.div(target, S.add(px, EPS))
@@ -283,8 +283,10 @@ def power_scaling(ctx, cfg):
         xv, ov = _item_vals(re, im, pos), _item_vals(ore, oim, pos)
         s, r = _witness_scale(ctx, ov, xv, pxs[k], tgt, kind)
         if s is None:
-            ctx.ensure("scale_witness_found", False, note="the item's output terms do not contain exactly one auxiliary sqrt variable")
-            return
+            # no single scale term in this item's output: state the law with the specified scale and leave it to the solver
+            r = S.div(tgt, S.add(pxs[k], EPS))
+            s = S.ssqrt(r)
+            cut_ok = False
         po = _power(pk, ov, len(pos))
         if ctx.mode == "sym":
             f_scaled = SP.conj(_ident_or_eq(o, S.mul(v, s)) for o, v in zip(ov, xv))
